@@ -148,7 +148,15 @@ def run(c):
          must_cover=['EvCall', 'EvLine', 'EvReturn', 'EvException', 'EvCatch'])
     if not quick:
         c.mc('MC_Dispatch', mc_cfg(idents=(1, 2), ev=6), label='2 idents, 6 events', timeout=1800)
-    traces, meta = run_scenarios(c, rng, wd, 60 if quick else 1500, 0.2, 'placement', 'p')
+    # a method tracepoint names a function NAME: every function of that name in the file (here a module-level f and a
+    # method K.f), each time it is entered, in any order
+    same_name = [([dict(id=1, kind='method', file='a', name='f', line=0, span='none'),
+                   dict(id=2, kind='line', file='a', line='kf_first', span='none')],
+                  [[('a.f', [('call', 'a.kf', [('line',)]), ('call', 'a.f', []), ('call', 'a.kf', [])])],
+                   [('a.kf', [('call', 'a.f', [])])], [('a.f', [])]]),
+                 ([dict(id=1, kind='method', file='a', name='f', line=0, span='none')],
+                  [[('a.kf', [])], [('a.f', [])], [('a.kf', [])], [('a.f', [])]])]
+    traces, meta = run_scenarios(c, rng, wd, 60 if quick else 1500, 0.2, 'placement', 'p', curated=same_name)
     validate(c, traces, meta, lambda m: m['firings'] >= 3)
     c.extra['events_judged'] = sum(m['events'] for m in meta)
     c.extra['firings'] = sum(m['firings'] for m in meta)
